@@ -344,8 +344,12 @@ Iter ==
          probeDue(o) == LET g == R2[o.fnk]
                             since == SelectSeq(SeqOf(P2, <<o.fnk, o.idx>>), LAMBDA x : x >= g.at)
                         IN IF ~g.probe THEN {} ELSE IF since = <<>> THEN {g.at + 250} ELSE {Last(since) + 250}
+         c2 == [x \in Dom(compet) \cup competNow |-> IF x \in competNow THEN T ELSE compet[x]]
          due == {d \in {o.due : o \in {x \in O2 : x.kind \in {"ann2", "bye2"} /\ (x.kind = "bye2" \/ quiet(x.fnk))}}
                         \cup UNION {probeDue(o) : o \in {x \in O2 : x.kind = "announce" /\ quiet(x.fnk)}}
+                        \* a competing probe for a name we are probing and have not announced: whether the tiebreak was won (next
+                        \* probe within 250 ms) or lost (start over one second later), the daemon wakes within a second of it
+                        \cup {c2[x] + 1000 : x \in {y \in Dom(c2) : \E o \in O2 : o.kind = "announce" /\ (o.fnk = y \/ (o.fnk \in Dom(R2) /\ R2[o.fnk].hostk = y))}}
                         \cup (IF s.ipint > 0 THEN {T + s.ipint} ELSE {}) : d > T}
          vWake == IF due = {} \/ ~Ev.alive \/ s.down THEN {}
                   ELSE V("C12.cover", Ev.wake >= 0 /\ Ev.wake <= (CHOOSE d \in due : \A e \in due : d <= e),
